@@ -8,11 +8,16 @@ import (
 	"fmt"
 	"io"
 	"net/http"
+	"os"
 	"path"
+	"path/filepath"
 	"testing"
 	"time"
 
 	"github.com/pingcap/kvproto/pkg/metapb"
+	"github.com/pingcap/kvproto/pkg/pdpb"
+	"github.com/tikv/pd/server/config"
+	"github.com/tikv/pd/tests"
 	"pdverif/vkit"
 )
 
@@ -77,6 +82,125 @@ func TestFinding_scatter_range_name_overwrites_cluster_meta(t *testing.T) {
 	detail := fmt.Sprintf("POST /pd/api/v1/schedulers scatter-range with range_name x/../../raft answered HTTP %d %s; cluster meta key %s: revision %d -> %d, value %q -> %q (parses as cluster meta: %v, id %d, server cluster id %d)",
 		resp.StatusCode, bytes.TrimSpace(answer), metaKey, revBefore, revAfter, trunc(before), trunc(after), parse == nil, m.GetId(), f.svr.ClusterID())
 	vkit.Finding(t, key, changed, detail)
+}
+
+// C20/internal-requests-accept-foreign-cluster-id
+//
+// SyncMaxTS and GetDCLocationInfo (PD-to-PD calls) are validated by validateInternalRequest, which
+// checks that the server is started and (SyncMaxTS) that the sender id is the leader's member id, but
+// never looks at the header's cluster id: a request that states ANOTHER cluster's id is served
+// (SyncMaxTS with SkipCheck then writes MaxTs into the TSO of every local allocator this member leads).
+// Probe over real gRPC: with a foreign cluster id and the right sender id both calls get past the
+// validation (they fail later, for reasons that have nothing to do with the id, on a cluster without
+// local TSO); control: with a wrong sender id SyncMaxTS is refused by the validation.
+func TestFinding_internal_requests_accept_foreign_cluster_id(t *testing.T) {
+	const key = knownInternalForeignID
+	f, err := getLive()
+	if err != nil {
+		vkit.Finding(t, key, false, "inconclusive: live server unavailable: "+err.Error())
+		return
+	}
+	if err := f.prepareRefusal(); err != nil {
+		f.broken = true
+		vkit.Finding(t, key, false, "inconclusive: fixture not ready: "+err.Error())
+		return
+	}
+	cli := pdpb.NewPDClient(f.conn)
+	cid, leader := f.svr.ClusterID(), f.svr.GetMember().ID()
+	ctx, cancel := context.WithTimeout(context.Background(), 20*time.Second)
+	defer cancel()
+	foreign := &pdpb.RequestHeader{ClusterId: cid + 1, SenderId: leader}
+	_, e1 := cli.SyncMaxTS(ctx, &pdpb.SyncMaxTSRequest{Header: foreign, SkipCheck: true, MaxTs: &pdpb.Timestamp{Physical: 1, Logical: 1}})
+	_, e2 := cli.GetDCLocationInfo(ctx, &pdpb.GetDCLocationInfoRequest{Header: foreign, DcLocation: "dc-1"})
+	_, e3 := cli.SyncMaxTS(ctx, &pdpb.SyncMaxTSRequest{Header: &pdpb.RequestHeader{ClusterId: cid, SenderId: leader + 1}, SkipCheck: true, MaxTs: &pdpb.Timestamp{Physical: 1, Logical: 1}})
+	if isEnv(e1) || isEnv(e2) || isEnv(e3) {
+		vkit.Finding(t, key, false, fmt.Sprintf("inconclusive: %v / %v / %v", e1, e2, e3))
+		return
+	}
+	reproduced := !isMismatch(e1) || !isMismatch(e2)
+	vkit.Finding(t, key, reproduced, fmt.Sprintf("server cluster id %d; SyncMaxTS with cluster id %d and the leader's sender id: %v; GetDCLocationInfo with cluster id %d: %v (refused as a cluster-id mismatch: %v / %v); control, SyncMaxTS with a wrong sender id: %v",
+		cid, cid+1, e1, cid+1, e2, isMismatch(e1), isMismatch(e2), e3))
+}
+
+// C20/first-region-not-served-by-a-former-follower
+//
+// A member that was a follower before the cluster was bootstrapped ran RegionSyncer.StartSyncWithLeader
+// -> Storage.LoadRegionsOnce on its (empty) region storage, which marks the storage as loaded. When
+// that member becomes PD leader and a Bootstrap request succeeds on it, bootstrapCluster saves the first
+// region to the region storage and starts the raft cluster, whose LoadRegionsOnce is now a no-op: the
+// cluster is served WITHOUT its first region (GetRegion / GetRegionByID answer nothing) until the first
+// region heartbeat, although the request was answered with success and the region is stored.
+func TestFinding_first_region_not_served_by_a_former_follower(t *testing.T) {
+	const key = "C20/first-region-not-served-by-a-former-follower"
+	shutdownLive() // address space: at most one fixture with embedded etcds at a time
+	ctx, cancel := context.WithCancel(context.Background())
+	defer cancel()
+	base := filepath.Join(os.TempDir(), fmt.Sprintf("verif-c20-probe-%d", os.Getpid()))
+	defer os.RemoveAll(base)
+	var cl *tests.TestCluster
+	var err error
+	ok := within(90*time.Second, func() {
+		cl, err = tests.NewTestCluster(ctx, 2, func(conf *config.Config, name string) {
+			conf.EnableLocalTSO = false
+			conf.Log.Level = "fatal"
+			os.Remove(conf.DataDir)
+			conf.DataDir = filepath.Join(base, name)
+		})
+		if err == nil {
+			err = cl.RunInitialServers()
+		}
+	})
+	if !ok || err != nil {
+		vkit.Finding(t, key, false, fmt.Sprintf("inconclusive: the 2-member cluster did not start: ok=%v err=%v", ok, err))
+		return
+	}
+	first := cl.WaitLeader()
+	if first == "" {
+		vkit.Finding(t, key, false, "inconclusive: no leader")
+		return
+	}
+	// let the follower run its region sync client against the (not yet bootstrapped) leader
+	time.Sleep(800 * time.Millisecond)
+	second := ""
+	for attempt := 0; attempt < 5 && (second == "" || second == first); attempt++ {
+		if err := cl.ResignLeader(); err != nil {
+			time.Sleep(300 * time.Millisecond)
+			continue
+		}
+		time.Sleep(300 * time.Millisecond)
+		second = cl.WaitLeader()
+	}
+	if second == "" || second == first {
+		vkit.Finding(t, key, false, "inconclusive: the leadership did not move to the former follower")
+		return
+	}
+	svr := cl.GetServer(second).GetServer()
+	deadline := time.Now().Add(20 * time.Second)
+	for !svr.GetMember().IsLeader() && time.Now().Before(deadline) {
+		time.Sleep(10 * time.Millisecond)
+	}
+	h := &pdpb.RequestHeader{ClusterId: svr.ClusterID()}
+	region := &metapb.Region{Id: 2, RegionEpoch: &metapb.RegionEpoch{ConfVer: 1, Version: 1}, Peers: []*metapb.Peer{{Id: 3, StoreId: 1}}}
+	rctx, rcancel := context.WithTimeout(context.Background(), 30*time.Second)
+	defer rcancel()
+	resp, err := svr.Bootstrap(rctx, &pdpb.BootstrapRequest{Header: h, Store: &metapb.Store{Id: 1, Address: "tikv-1:20160", Version: "5.0.0"}, Region: region})
+	if err != nil || resp.GetHeader().GetError() != nil {
+		vkit.Finding(t, key, false, fmt.Sprintf("inconclusive: bootstrap on the new leader failed: %v %v", err, resp.GetHeader().GetError()))
+		return
+	}
+	byID, e1 := svr.GetRegionByID(rctx, &pdpb.GetRegionByIDRequest{Header: h, RegionId: 2})
+	byKey, e2 := svr.GetRegion(rctx, &pdpb.GetRegionRequest{Header: h, RegionKey: []byte("a")})
+	var stored metapb.Region
+	okStored, e3 := svr.GetStorage().LoadRegion(2, &stored)
+	store, e4 := svr.GetStore(rctx, &pdpb.GetStoreRequest{Header: h, StoreId: 1})
+	if e1 != nil || e2 != nil || e3 != nil || e4 != nil {
+		vkit.Finding(t, key, false, fmt.Sprintf("inconclusive: %v %v %v %v", e1, e2, e3, e4))
+		return
+	}
+	reproduced := byID.GetRegion() == nil || byKey.GetRegion() == nil
+	vkit.Finding(t, key, reproduced, fmt.Sprintf("leader %s resigned, former follower %s became leader and answered Bootstrap with success; right afterwards GetRegionByID(2) serves %v, GetRegion(\"a\") serves %v, GetStore(1) serves %v; region storage holds the region: %v",
+		first, second, byID.GetRegion(), byKey.GetRegion(), store.GetStore(), okStored))
+	// no graceful stop (it takes ~10 s and buys nothing): the context is cancelled and the data removed
 }
 
 func trunc(b []byte) string {
